@@ -65,6 +65,7 @@ type Result struct {
 	PathEnds       map[string]int  `json:"path_ends"`
 	Violations     []Violation     `json:"violations"`
 	Covers         map[string]int  `json:"covers"`
+	Facts          map[string]int  `json:"facts"`
 	Functions      []string        `json:"functions_encoded"`
 	Unmodelled     []string        `json:"unmodelled_calls"`
 	Stubs          []string        `json:"stubs_used"`
@@ -320,7 +321,7 @@ func ExploreParallel(prog *ssa.Program, cfg Config, newSolver func() (*smt.Solve
 		e := NewEngine(prog, sol, cfg)
 		e.pool = pool
 		e.initFuncs = inits
-		e.Res = &Result{Entry: entry.String(), PathEnds: map[string]int{}, Covers: map[string]int{}, Files: map[string]bool{}}
+		e.Res = &Result{Entry: entry.String(), PathEnds: map[string]int{}, Covers: map[string]int{}, Facts: map[string]int{}, Files: map[string]bool{}}
 		engines[w] = e
 		wg.Add(1)
 		go func(e *Engine) {
@@ -354,7 +355,7 @@ func ExploreParallel(prog *ssa.Program, cfg Config, newSolver func() (*smt.Solve
 	}
 	wg.Wait()
 	// merge
-	res := &Result{Entry: entry.String(), PathEnds: map[string]int{}, Covers: map[string]int{}, Files: map[string]bool{}}
+	res := &Result{Entry: entry.String(), PathEnds: map[string]int{}, Covers: map[string]int{}, Facts: map[string]int{}, Files: map[string]bool{}}
 	funcs, unmod, stubs := map[string]bool{}, map[string]bool{}, map[string]bool{}
 	inc := map[string]bool{}
 	for _, e := range engines {
@@ -365,6 +366,9 @@ func ExploreParallel(prog *ssa.Program, cfg Config, newSolver func() (*smt.Solve
 		}
 		for k, v := range r.Covers {
 			res.Covers[k] += v
+		}
+		for k, v := range r.Facts {
+			res.Facts[k] += v
 		}
 		for k := range r.Files {
 			res.Files[k] = true
@@ -725,12 +729,47 @@ func (st *State) check(cond *Term, kind, id, msg string, pos token.Pos) {
 	st.assume(cond)
 }
 
+// softCheck: a harness assertion. A possible failure is recorded; execution continues
+// (under the assumption that the assertion held, when that is still feasible).
+func (st *State) softCheck(cond *Term, id, msg string, pos token.Pos) {
+	if cond.IsTrue() {
+		return
+	}
+	if cond.IsFalse() {
+		st.recordViolation("assert", id, msg, pos, false)
+		return
+	}
+	sol := st.sol
+	sol.Push()
+	sol.Assert(Not(cond).S)
+	r := sol.Check()
+	if r == smt.Sat {
+		st.recordViolation("assert", id, msg, pos, false)
+	}
+	sol.Pop()
+	if r == smt.Unknown {
+		st.unknown++
+		st.recordViolation("assert", id, msg+" (solver: unknown)", pos, true)
+	}
+	if r != smt.Unsat {
+		if sol.CheckWith(cond.S) == smt.Unsat {
+			return // always fails here; keep going without assuming
+		}
+	}
+	st.assume(cond)
+}
+
 func (st *State) recordViolation(kind, id, msg string, pos token.Pos, unknown bool) {
 	e := st.eng
 	key := kind + "|" + id + "|" + e.pos(pos)
+	for _, d := range st.draws {
+		if d.Kind == "choice" {
+			key += "|" + d.Name + "=" + d.Value
+		}
+	}
 	e.violSeen[key]++
-	if e.violSeen[key] > 3 {
-		return // keep at most 3 witnesses per (kind,id,pos)
+	if e.violSeen[key] > 1 {
+		return // keep one witness per (kind,id,pos,concrete choices)
 	}
 	v := Violation{ID: id, Kind: kind, Msg: msg, Pos: e.pos(pos), Unknown: unknown}
 	v.Path = append([]int(nil), st.taken...)
